@@ -4,4 +4,7 @@ package litefs
 var verifHarnesses = map[string]func(){
 	"VerifC12Step":     VerifC12Step,
 	"VerifC12Blocking": VerifC12Blocking,
+	"VerifC18FrameRoundTrip": VerifC18FrameRoundTrip,
+	"VerifC18FrameArbitrary": VerifC18FrameArbitrary,
+	"VerifC18FrameAlloc":     VerifC18FrameAlloc,
 }
